@@ -98,7 +98,7 @@ impl RdfPlanner {
             LogicalOperator::LeftJoin(join) => self.plan_left_join(join),
             LogicalOperator::AntiJoin(join) => self.plan_anti_join(join),
             LogicalOperator::Union(union) => self.plan_union(union),
-            LogicalOperator::Distinct(distinct) => self.plan_operator(&distinct.input),
+            LogicalOperator::Distinct(distinct) => self.plan_distinct(distinct),
             LogicalOperator::InsertTriple(insert) => self.plan_insert_triple(insert),
             LogicalOperator::DeleteTriple(delete) => self.plan_delete_triple(delete),
             LogicalOperator::Modify(modify) => self.plan_modify(modify),
@@ -314,6 +314,36 @@ impl RdfPlanner {
         let (input_op, columns) = self.plan_operator(&skip.input)?;
         let output_schema = derive_rdf_schema(&columns);
         let operator = Box::new(SkipOperator::new(input_op, skip.count, output_schema));
+        Ok((operator, columns))
+    }
+
+    /// Plans a DISTINCT operator: rows equal in every column are returned once.
+    fn plan_distinct(
+        &self,
+        distinct: &crate::query::plan::DistinctOp,
+    ) -> Result<(Box<dyn Operator>, Vec<String>)> {
+        use grafeo_core::execution::operators::DistinctOperator;
+
+        let (input_op, columns) = self.plan_operator(&distinct.input)?;
+        let output_schema = derive_rdf_schema(&columns);
+        let operator: Box<dyn Operator> = match &distinct.columns {
+            Some(names) => {
+                let indices = names
+                    .iter()
+                    .map(|name| {
+                        columns.iter().position(|c| c == name).ok_or_else(|| {
+                            Error::Internal(format!("Variable '{}' not found", name))
+                        })
+                    })
+                    .collect::<Result<Vec<_>>>()?;
+                Box::new(DistinctOperator::on_columns(
+                    input_op,
+                    indices,
+                    output_schema,
+                ))
+            }
+            None => Box::new(DistinctOperator::new(input_op, output_schema)),
+        };
         Ok((operator, columns))
     }
 
